@@ -111,6 +111,7 @@ fn judge(ctx: &Ctx, p: &Pos, origin: &Origin, cfg: &Config, res: Result<Vec<Move
             return;
         }
     };
+    ctx.run.distinct_outcome_sig((yielded.len() as u64) << 1 | u64::from(cfg.loud), || format!("stream of {} moves (captures-only: {})", yielded.len(), cfg.loud));
     let mut got: Vec<RMove> = yielded.iter().map(|m| eng::move_from_eng(*m)).collect();
     got.sort();
     if cfg.loud {
